@@ -9,7 +9,9 @@ from __future__ import annotations
 import dataclasses
 import hashlib
 import importlib
+import contextlib
 import inspect
+import re
 import warnings
 from typing import Any, Optional
 
@@ -154,28 +156,78 @@ SUBGRAPH_OPS = {"Scan", "SequenceMap"}  # not generated
 BODY_OPS = {"If", "Loop"}  # generated with Identity bodies over outer-scope values
 
 
+_SIG_RE = re.compile(r"Signature: ``([\w.]+)@(\d+)::(\w+)``")
+_CTOR_CACHE: dict = {}
+
+
+def module_constructors(modname: str) -> dict:
+    """Public constructor functions of an opset module, by ONNX operator name (found through the
+    `Signature: ``domain@version::Name``` line of their docstring - no private table is read)."""
+    if modname not in _CTOR_CACHE:
+        m = importlib.import_module(modname)
+        out = {}
+        for attr in sorted(dir(m)):
+            if attr.startswith("_"):
+                continue
+            f = getattr(m, attr)
+            doc = getattr(f, "__doc__", None)
+            if callable(f) and isinstance(doc, str):
+                mm = _SIG_RE.search(doc)
+                if mm:
+                    out.setdefault(mm.group(3), f)
+        _CTOR_CACHE[modname] = out
+    return _CTOR_CACHE[modname]
+
+
 def load_vocabulary():
-    """All (module, operator) pairs of the shipped opset modules; real classes looked up lazily."""
+    """All (module, operator) pairs of the shipped opset modules (public constructors only)."""
     ops, first = [], {}
     for mod, dom, ver in MODULES:
-        m = importlib.import_module(mod)
-        for name, cls in m._OPERATORS.items():
+        for name, fn in sorted(module_constructors(mod).items()):
             o = Op(mod, dom, ver, name)
-            if cls in first:
-                o.shared_with = first[cls]
+            if fn in first:
+                o.shared_with = first[fn]
             else:
-                first[cls] = mod
+                first[fn] = mod
             ops.append(o)
     return ops
 
 
+def constructor(op: Op):
+    return module_constructors(op.module)[op.name]
+
+
+def node_class(op: Op):
+    """The node class behind the constructor (spox-internal; only the correspondence needs it).
+    None if it cannot be found."""
+    try:
+        return getattr(importlib.import_module(op.module), "_OPERATORS", {}).get(op.name)
+    except Exception:  # noqa: BLE001
+        return None
+
+
 def real(op: Op):
-    m = importlib.import_module(op.module)
-    return m._OPERATORS[op.name], m._CONSTRUCTORS[op.name]
+    return node_class(op), constructor(op)
+
+
+# Operators whose inference spox supplements / replaces itself on the pinned tree
+# ((domain, name, since_version)); for these the oracle only demands "rejects at least what ONNX
+# rejects". Everything else is compared in full, whatever the class looks like today.
+SUPPLEMENTED = {
+    ("", "Compress", 11), ("", "Loop", 16),
+    ("ai.onnx.ml", "ArrayFeatureExtractor", 1), ("ai.onnx.ml", "Binarizer", 1), ("ai.onnx.ml", "CategoryMapper", 1),
+    ("ai.onnx.ml", "Imputer", 1), ("ai.onnx.ml", "LinearRegressor", 1), ("ai.onnx.ml", "Normalizer", 1),
+    ("ai.onnx.ml", "OneHotEncoder", 1), ("ai.onnx.ml", "Scaler", 1),
+    ("ai.onnx.ml", "TreeEnsembleClassifier", 3), ("ai.onnx.ml", "TreeEnsembleRegressor", 3),
+}
+
+
+def is_supplemented(op: Op) -> bool:
+    return (op.domain, op.name, op.schema().since_version) in SUPPLEMENTED
 
 
 def is_patched(cls) -> bool:
-    """spox supplements / replaces ONNX inference for this operator (own `infer_output_types`)."""
+    """(correspondence only) the class has its own `infer_output_types`."""
     from spox._standard import StandardNode
 
     for k in cls.__mro__:
@@ -555,7 +607,10 @@ def gen_call(rng, op: Op, force: Optional[str] = None) -> dict:
     # ---- attributes
     attrs = {}
     T = onnx.defs.OpSchema.AttrType
-    cls_fields = {f.name: str(f.type) for f in dataclasses.fields(real(op)[0].Attributes)}
+    try:
+        ann = {p.name: str(p.annotation) for p in inspect.signature(constructor(op)).parameters.values()}
+    except (TypeError, ValueError):
+        ann = {}
     for aname, a in sorted(sch.attributes.items()):
         if a.type in (T.GRAPH, T.GRAPHS, T.SPARSE_TENSOR, T.SPARSE_TENSORS, T.TENSORS, T.TYPE_PROTOS):
             if a.required:
@@ -565,7 +620,7 @@ def gen_call(rng, op: Op, force: Optional[str] = None) -> dict:
         if op.name == "Constant":
             continue
         if give:
-            val = _gen_attr_value(rng, op.name, aname, a, base_rank, "AttrDtype" in cls_fields.get(aname, ""))
+            val = _gen_attr_value(rng, op.name, aname, a, base_rank, "DTypeLike" in ann.get(aname, ""))
             if val is not None:
                 attrs[aname] = val
     if op.name == "Constant":
@@ -1023,14 +1078,11 @@ def _model_json(m: onnx.ModelProto) -> dict:
 
 
 def run_spox(op: Op, call, value_prop: bool = False) -> dict:
-    """Call the real constructor; observe the exception or the output types, the node object, and the
-    request spox made to onnx.shape_inference (model + flags + answer)."""
-    import spox._future as fut
-    import spox._node as node_mod
-    from spox._value_prop import ValuePropBackend
-
-    cls, fn = real(op)
-    res: dict = {"raised": None, "types": None, "captured": [], "node": None}
+    """Call the real constructor through the public API; observe the exception or the output types.
+    Best-effort observations for the correspondence (never fatal; failures go to `obs_errors`): the
+    request spox made to onnx.shape_inference (model + flags + answer) and the node object."""
+    fn = constructor(op)
+    res: dict = {"raised": None, "types": None, "captured": [], "node": None, "obs_errors": []}
     with warnings.catch_warnings():
         warnings.simplefilter("ignore")
         vs = make_vars(call)
@@ -1046,9 +1098,9 @@ def run_spox(op: Op, call, value_prop: bool = False) -> dict:
             else:
                 kwargs[pname] = vs[a]
         for aname, val in call["attrs"].items():
-            kwargs[aname] = spox_attr_value(cls, aname, val)
+            kwargs[aname] = spox_attr_value(None, aname, val)
         if call.get("sub"):
-            idn = importlib.import_module(op.module).identity
+            idn = module_constructors(op.module)["Identity"]
             sub = call["sub"]
             if op.name == "If":
                 kwargs["then_branch"] = lambda: [idn(vs[v]) for v in sub["then"]]
@@ -1060,19 +1112,24 @@ def run_spox(op: Op, call, value_prop: bool = False) -> dict:
                         outs.append(idn(carried[k]) if src == "same" else idn(vs[src]))
                     return outs + [idn(vs[v]) for v in sub["scan"]]
                 kwargs["body"] = body
-        extra = [k for k in kwn if k not in {f.name for f in dataclasses.fields(cls.Attributes)}]
+        extra = [k for k in kwn if k not in op.schema().attributes]
         if extra and call.get("out_count") and not call.get("sub"):
             kwargs[extra[0]] = call["out_count"]
 
+        # -- observation 1: the inference request (wraps a function of onnx, not of spox)
         captured = res["captured"]
         sig = inspect.signature(ORIG_INFER_SHAPES)
 
         def rec(*a, **k):
-            b = sig.bind(*a, **k)
-            b.apply_defaults()
-            m = b.arguments["model"]
-            ent = {"model": onnx.ModelProto.FromString(m.SerializeToString()) if isinstance(m, onnx.ModelProto) else None,
-                   "flags": [bool(b.arguments["check_type"]), bool(b.arguments["strict_mode"]), bool(b.arguments["data_prop"])]}
+            ent: dict = {"model": None, "flags": None}
+            try:
+                b = sig.bind(*a, **k)
+                b.apply_defaults()
+                m = b.arguments["model"]
+                ent["model"] = onnx.ModelProto.FromString(m.SerializeToString()) if isinstance(m, onnx.ModelProto) else None
+                ent["flags"] = [bool(b.arguments["check_type"]), bool(b.arguments["strict_mode"]), bool(b.arguments["data_prop"])]
+            except Exception as e:  # noqa: BLE001
+                res["obs_errors"].append(f"inference request: {type(e).__name__}: {e}"[:200])
             captured.append(ent)
             try:
                 r = ORIG_INFER_SHAPES(*a, **k)
@@ -1082,46 +1139,66 @@ def run_spox(op: Op, call, value_prop: bool = False) -> dict:
             ent["result"] = r
             return r
 
-        seen_nodes = []
-        orig_inference = node_mod.Node.inference
+        # -- observation 2: the node object (spox-internal hook; optional)
+        seen_nodes: list = []
+        node_mod = orig_inference = None
+        try:
+            import spox._node as node_mod  # type: ignore[no-redef]
 
-        def inference(self, *a, **k):
-            seen_nodes.append(self)
-            return orig_inference(self, *a, **k)
+            orig_inference = node_mod.Node.inference
+
+            def inference(self, *a, **k):
+                seen_nodes.append(self)
+                return orig_inference(self, *a, **k)
+        except Exception as e:  # noqa: BLE001
+            res["obs_errors"].append(f"Node.inference hook: {type(e).__name__}: {e}"[:200])
+            node_mod = None
+
+        # -- value propagation off during the call under test (C07/C15's subject), if the switch exists
+        ctx = contextlib.nullcontext()
+        if not value_prop:
+            try:
+                import spox._future as fut
+                from spox._value_prop import ValuePropBackend
+
+                ctx = fut.value_prop_backend(ValuePropBackend.NONE)
+            except Exception as e:  # noqa: BLE001
+                res["obs_errors"].append(f"value_prop_backend switch: {type(e).__name__}: {e}"[:200])
 
         onnx.shape_inference.infer_shapes = rec
-        node_mod.Node.inference = inference
+        if node_mod is not None:
+            node_mod.Node.inference = inference
         try:
-            if value_prop:
+            with ctx:
                 out = fn(**kwargs)
-            else:
-                with fut.value_prop_backend(ValuePropBackend.NONE):
-                    out = fn(**kwargs)
         except Exception as e:  # noqa: BLE001
             res["raised"] = type(e).__name__
             res["msg"] = str(e)[:300]
             out = None
         finally:
             onnx.shape_inference.infer_shapes = ORIG_INFER_SHAPES
-            node_mod.Node.inference = orig_inference
+            if node_mod is not None:
+                node_mod.Node.inference = orig_inference
         if out is not None:
             outs = list(out) if isinstance(out, (tuple, list)) else [out]
-            res["types"] = [from_spox_type(v.type) for v in outs]
-        if call.get("sub"):
-            # bodies create their own nodes (and inference requests): keep the operator under test only
-            seen_nodes = [n for n in seen_nodes if isinstance(n, cls)]
-            res["captured"] = [c for c in captured if c["model"] is not None and len(c["model"].graph.node) == 1
-                               and c["model"].graph.node[0].op_type == op.name]
-        if seen_nodes:
-            nd = seen_nodes[0]
-            res["node"] = {
-                "attrs": [[k, None if v is None else "graph" if type(v).__name__ == "AttrGraph" else
-                           hashlib.sha1(v._to_onnx().SerializeToString(deterministic=True)).hexdigest()[:12]]
-                          for k, v in nd.attrs.get_fields().items()],
-                "var_ids": {id(v): i for i, v in enumerate(vs)},
-            }
-            res["node_obj"] = nd
-        res["vars_obj"] = vs
+            res["types"] = [from_spox_type(getattr(v, "type", None)) for v in outs]
+        try:
+            cls = node_class(op)
+            if call.get("sub"):
+                # bodies create their own nodes (and inference requests): keep the operator under test only
+                seen_nodes = [n for n in seen_nodes if cls is not None and isinstance(n, cls)]
+                res["captured"] = [c for c in captured if c["model"] is not None and len(c["model"].graph.node) == 1
+                                   and c["model"].graph.node[0].op_type == op.name]
+            if seen_nodes:
+                nd = seen_nodes[0]
+                res["node"] = {
+                    "attrs": [[k, None if v is None else "graph" if type(v).__name__ == "AttrGraph" else
+                               hashlib.sha1(v._to_onnx().SerializeToString(deterministic=True)).hexdigest()[:12]]
+                              for k, v in nd.attrs.get_fields().items()],
+                }
+                res["node_cls"] = type(nd)
+        except Exception as e:  # noqa: BLE001
+            res["obs_errors"].append(f"node attributes: {type(e).__name__}: {e}"[:200])
     return res
 
 
@@ -1138,9 +1215,9 @@ def sig_of(cls) -> dict:
 
 
 def model_request(op: Op, call, sp: dict) -> Optional[dict]:
-    cls, _ = real(op)
     if sp["node"] is None:
         return None
+    cls = sp.get("node_cls") or node_class(op)
     vars_ = []
     for i, v in enumerate(call["vars"]):
         dg = None
